@@ -756,13 +756,16 @@ def run_intervals(case):
     except Exception as e:
         V.add('intervals/exception/setup/%s' % type(e).__name__, '%s: %r' % (t, e))
         return {'viol': V.out(), 'states': 0, 'outcome': 'exception'}
-    for n in case['n']:
+    # equal numbers of phi and theta intervals, then (thorough tier and every fourth quick case) unequal ones: (n, n/2) and (n/2, n)
+    grids = [(n, n) for n in case['n']] + [g for n in case['n'][-1:] for g in ((n, n // 2), (n // 2, n)) if case.get('unequal')]
+    for nphi, nth in grids:
+        n = nphi if nphi == nth else (nphi, nth)
         for sym in ([False, True] if case['symmetric_ok'] else [False]):
-            if sym and n % 2:
+            if sym and (nphi % 2 or nth % 2):
                 continue
-            tt = '%s intervals=%d%s' % (t, n, ' (one octant)' if sym else '')
+            tt = '%s intervals=%s%s' % (t, n, ' (one octant)' if sym else '')
             try:
-                d.setIntegrationIntervals(n // 2 if sym else n, n // 2 if sym else n, assumeSymmetric=sym)
+                d.setIntegrationIntervals(nphi // 2 if sym else nphi, nth // 2 if sym else nth, assumeSymmetric=sym)
                 en = {}
                 for inv in INVS:
                     d.setOhmInverseFunction(inv)
@@ -786,7 +789,15 @@ def run_intervals(case):
                     V.add('intervals/rank-agree/%s' % m4, '%s: 6x6 %r vs fourth rank %r' % (tt, a[m2], a[m4]))
             if 'Ellipsoid' in a and not close(a['Ellipsoid'], a['Bohm'], RTOL_SAME):
                 V.add('intervals/homog-limit', '%s: homogeneous formula %r vs general %r' % (tt, a['Ellipsoid'], a['Bohm']))
-            errs[(n, sym)] = abs(a['Bohm'] - eref) / abs(eref)
+            if nphi == nth:
+                errs[(n, sym)] = abs(a['Bohm'] - eref) / abs(eref)
+            elif max(axes) / min(axes) <= 3.0:
+                # unequal numbers of intervals: at least as fine as the coarser equal grid in both directions, so the same coarse
+                # bound applies (measured 1e-4 .. 1e-3 on the unchanged tree)
+                eu = abs(a['Bohm'] - eref) / abs(eref)
+                if not eu <= 1e-2:
+                    V.add('intervals/reference/unequal%s' % ('/octant' if sym else ''), '%s: energy %.3g away (relative) from the independent '
+                          'reference %r' % (tt, eu, eref))
     if errs:
         for sym in (False, True):
             ks = sorted(k for k in errs if k[1] == sym)
@@ -1222,7 +1233,8 @@ def run(ctx):
             for an in [a for a in axes if a != 'sphere'][:2 if quick else None]:
                 for prec in ['none', 'stiff']:
                     icases.append({'matrix': mname, 'rot': rn, 'axes': an, 'prec': prec, 'eig': eigs[len(icases) % len(eigs)],
-                                   'n': [32, 64], 'symmetric_ok': rn in ('none', 'id', 'I')})
+                                   'n': [32, 64], 'symmetric_ok': rn in ('none', 'id', 'I'),
+                                   'unequal': (not quick) or len(icases) % 2 == 0})
     ctx.product_run('intervals', 'checks.c16:run_intervals', icases, chunksize=1)
 
     # stage 2
